@@ -143,6 +143,32 @@ func newTarget(kind string) any {
 // target kind.
 func orderSource(r *prng.R, kind string) string {
 	var sb strings.Builder
+	if kind == "print" {
+		// block values with several fields reach the output: printed directly, through a
+		// variable, nested in another block value
+		sb.WriteString("def outer \"o\" {\n")
+		cands := []string{`a = 1`, `b = "two"`, `c = 3.5`, `d = true`, `e = 5`, `f = 6`, `g = nil`, `h = "x" + "y"`, `i = 1 + 2`, `k = false`}
+		nb := r.Range(1, 3)
+		for b := 0; b < nb; b++ {
+			fmt.Fprintf(&sb, "  def inner%d {\n", b)
+			for _, i := range r.Perm(len(cands))[:r.Range(2, 8)] {
+				fmt.Fprintf(&sb, "    %s\n", cands[i])
+			}
+			if b > 0 && r.Chance(1, 2) {
+				sb.WriteString("    def deeper { x = 1; y = 2; z = 3 }\n    w = deeper\n")
+			}
+			sb.WriteString("  }\n")
+			fmt.Fprintf(&sb, "  print inner%d\n", b)
+			if r.Chance(1, 2) {
+				fmt.Fprintf(&sb, "  var v%d = inner%d\n  print v%d\n", b, b, b)
+			}
+		}
+		sb.WriteString("  def other \"x\" { p = 1; q = 2 }\n  last = inner0\n}\n")
+		if r.Chance(1, 2) {
+			sb.WriteString("bind outer -> struct\n")
+		}
+		return sb.String()
+	}
 	slice := strings.HasSuffix(kind, "-slice")
 	nblocks := 1
 	if slice {
@@ -224,7 +250,7 @@ func (c16) Gen(seed uint64, idx int, tier string) *Scenario {
 	r := prng.New(seed, "C16", idx)
 	sc := &Scenario{Prop: "C16", Seed: seed, Idx: idx, API: "ParseFile", Name: "f.bcl"}
 	if r.Chance(1, 2) {
-		kind := prng.Pick(r, []string{"ab", "ab-slice", "inner", "inner-slice", "mism", "mism-slice", "tag", "tags", "tags-slice"})
+		kind := prng.Pick(r, []string{"ab", "ab-slice", "inner", "inner-slice", "mism", "mism-slice", "tag", "tags", "tags-slice", "print"})
 		sc.Class = "order:" + kind
 		sc.SetStr("target", kind)
 		sc.Src = []byte(orderSource(r, kind))
